@@ -87,6 +87,74 @@ def parse_raw(raw):
     return code, trace, probes, d.get("detail", "")
 
 
+def parse_readback(raw):
+    """reads=<file>:<fn>=<value>,...  write=<code>/<reads after the write>  ('' when the tree has no read-back functions)"""
+    d = dict(kv.split("=", 1) for kv in raw.split(";") if "=" in kv)
+
+    def rd(txt):
+        out = []
+        for item in txt.split(","):
+            if item:
+                who, _, val = item.partition("=")
+                f, _, fn = who.rpartition(":")
+                out.append((f, fn, val))
+        return out
+    w = d.get("write", "")
+    write = None
+    if w:
+        c, _, rest = w.partition("/")
+        write = (int(c), rd(rest))
+    return rd(d.get("reads", "")), write
+
+
+def num(name):
+    return int(name[1:]) if name[1:].isdigit() else -1
+
+
+def own_let(t, f):
+    for n, _ in t["files"][f]["defs"]:
+        if 0 <= num(n) < 400 and num(n) % 2 == 1:
+            return n
+    return None
+
+
+def readback_oracle(t, a, code, reads, write):
+    """"importers observe the values it produced": a module's own function returns the module's own top-level variable
+    (n500+2i reads the private `zs` every module has, n600+2i the module's first own let); the entry cannot assign to a
+    name it neither declares nor imports."""
+    out = []
+    entry = t["files"][t["entry"]]
+    expected = []
+    zs_modules = [f for f in a["reach"] if any(500 <= num(n) < 600 for n, _ in t["files"][f]["defs"])]
+    for imp in entry["imports"]:
+        f = "/".join(imp["path"])
+        if imp["form"] in ("module", "alias") and f in t["files"] and not t["files"][f].get("fault"):
+            for n, is_pub in t["files"][f]["defs"]:
+                if num(n) >= 500 and is_pub:
+                    expected.append((f, n, "S:" + f if num(n) < 600 else "V:%s:%s" % (f, own_let(t, f))))
+    if not any(500 <= num(n) < 600 for fo in t["files"].values() for n, _ in fo["defs"]):
+        return out
+    if code == 0:
+        if [(f, n) for f, n, _ in reads] != [(f, n) for f, n, _ in expected]:
+            out.append(("readback-missing", f"the entry called {[(f, n) for f, n, _ in expected]}, observed {[(f, n) for f, n, _ in reads]}"))
+        else:
+            for (f, n, got), (_, _, want) in zip(reads, expected):
+                if got != want:
+                    what = f"{f}'s own function {n} returns {got}: the module's top-level variable holds another module's value (expected {want})"
+                    shared = (len(zs_modules) > 1) if num(n) < 600 else (own_let(t, f) in a["shared_names"])
+                    out.append(("ns:own-global-overwritten" if shared else "wrong-value", what))
+        if write is not None:
+            wcode, after = write
+            if wcode == 0:
+                hit = [(f, n, v) for f, n, v in after if v == "W"]
+                out.append(("write-to-undeclared-name",
+                            "the entry assigns `zs = \"W\"` although it neither declares nor imports zs: accepted"
+                            + (f"; afterwards {hit[0][0]}'s own function {hit[0][1]} returns W (the module's private variable was overwritten)" if hit else "")))
+            elif wcode != 5:
+                out.append(("unexpected-outcome", f"assignment to an undeclared name: outcome {CODES.get(wcode, wcode)}, expected compile-error"))
+    return out
+
+
 # ------------------------------------------------------------------------------------------ reference semantics
 def pubs(t, f):
     return [n for n, p in t["files"][f]["defs"] if p]
@@ -476,7 +544,7 @@ def session_oracle(t, inputs_obs, probes, bumps=None):
                 for imp in t["inputs"][k]["imports"]:
                     f = "/".join(imp["path"])
                     if imp["form"] in ("module", "alias") and f in t["files"] and not t["files"][f].get("fault") and any(
-                            n[1:].isdigit() and int(n[1:]) >= 400 and int(n[1:]) % 2 == 0 for n, _ in t["files"][f]["defs"]):
+                            n[1:].isdigit() and 400 <= int(n[1:]) < 500 and int(n[1:]) % 2 == 0 for n, _ in t["files"][f]["defs"]):
                         counters[f] += 1
                         exp.append((f, str(counters[f])))
                 got = bumps[k] if k < len(bumps) else []
@@ -651,6 +719,10 @@ def check_rows(ctx, rows, prof, origin, stats):
         if len(t["files"]) >= 2:
             stats["distinct"].add(r[2].split(";", 1)[1])
         fs, a = oracle(t, code, trace, probes)
+        reads, write = parse_readback(r[3])
+        fs = fs + readback_oracle(t, a, code, reads, write)
+        stats["readback_calls"] += len(reads)
+        stats["foreign_writes"] += 1 if write is not None else 0
         stats["features"].update(a["features"])
         if a["shared_names"]:
             stats["ns_class"] += 1
@@ -688,7 +760,7 @@ def run(ctx):
     profiles = ["dev"] if ctx.tier == "quick" else ["dev", "release"]
     stats = {"runs": 0, "codes": collections.Counter(), "labels": collections.Counter(), "distinct": set(),
              "oracle_failures": collections.Counter(), "guards": collections.Counter(), "sessions": 0,
-             "sessions_continuing_after_a_failed_input": 0, "counter_reads": 0,
+             "sessions_continuing_after_a_failed_input": 0, "counter_reads": 0, "readback_calls": 0, "foreign_writes": 0,
              "session_inputs": collections.Counter(), "session_outcomes": collections.Counter(), "opt_levels": collections.Counter(),
              "forms": collections.Counter(), "spellings": collections.Counter(), "sizes": collections.Counter(),
              "features": collections.Counter(), "ns_class": 0, "nested": 0, "cyclic": 0}
@@ -734,6 +806,8 @@ def run(ctx):
         "repl_input_outcomes": dict(stats["session_outcomes"]),
         "repl_sessions_continuing_after_a_failed_input": stats["sessions_continuing_after_a_failed_input"],
         "repl_reads_of_a_module's_mutable_counter": stats["counter_reads"],
+        "own_state_read_back_through_the_module's_function": stats["readback_calls"],
+        "trees_where_the_entry_assigns_to_a_module's_private_name": stats["foreign_writes"],
         "entry_opt_levels": dict(stats["opt_levels"]), "import_statements_by_form": dict(stats["forms"]),
         "files_per_tree": dict(sorted(stats["sizes"].items())), "spelling_features": dict(stats["spellings"]),
         "model_features_reached(reachable imports)": dict(sorted(stats["features"].items())),
